@@ -25,7 +25,7 @@ CHECKS = {
     "C02": dict(
         engine="S", category="model_checking", design="3/C02",
         technique="bounded exhaustive enumeration of quantifier chains x match counts x call routings on the real runtime, lock-step with a reference model",
-        text="All response chains of <= 2 (quick) / <= 3 (thorough) segments over 7 response kinds and all quantifiers incl. zero counts, in the four entry forms, on a method with and without real function / default body; every match count from 0 to past the chain end; every routing of the first calls over original and clone. Each call's response is compared with the model's segment formula; single-use values must panic on the second request. Ordered chains are also placed behind another ordered clause (slot range not starting at 0). Composite outputs (Option, Result, Vec, Option<Result<&T,E>>, Poll<Result<&T,E>>, (T,&T), String) x six configuration paths x three requests: single-use paths yield once then refuse, repeatable paths yield every time. Both tiers also run on the no_std+spin-lock build.",
+        text="All response chains of <= 2 (quick) / <= 3 (thorough) segments over 7 response kinds and all quantifiers incl. zero counts, in the four entry forms, on a method with and without real function / default body; every match count from 0 to past the chain end; every routing of the first 3 (quick) / 6 (thorough) calls over original and clone. Each call's response is compared with the model's segment formula; single-use values must panic on the second request. Ordered chains are also placed behind another ordered clause (slot range not starting at 0). Composite outputs (Option, Result, Vec, Option<Result<&T,E>>, Poll<Result<&T,E>>, (T,&T), String) x six configuration paths x three requests: single-use paths yield once then refuse, repeatable paths yield every time. Both tiers also run on the no_std+spin-lock build.",
         note=S_NOTE),
     "C03": dict(
         engine="S", category="model_checking", design="3/C03",
